@@ -18,6 +18,31 @@ CLAIMED = {
    text="Seeded deterministic simulation of namespace-building histories (groups, datasets, hard/soft/external links, dense groups, duplicates, missing parents, capacity exhaustion) followed by a restart; the reopened tree must equal a tree model and the two rejections the statement demands must be errors.",
    technique="deterministic simulation: seeded namespace histories with capacity exhaustion vs tree model over a simulated disk",
    ref="DESIGN.md section 4 C03"),
+ "C04": dict(level="exploration", engine="E1-history-simulator",
+   text="Seeded interleavings of operations over 2-6 live objects; every prefix of each history is re-executed as its own run ending in Close+Open+full logical dump and consecutive dumps are compared, so the first operation after which an untouched object changes (or the file stops opening) is named; the write log of the simulated disk attributes a clobbering write to the function that made it.",
+   technique="deterministic simulation: prefix re-execution differential with restart after every prefix",
+   ref="DESIGN.md section 4 C04"),
+ "C05": dict(level="exploration", engine="E1-history-simulator",
+   text="Files produced by the seeded histories of the other E1 checks are decoded by an independent from-the-specification decoder (sim/specdec: imports nothing from /repo) that records the extent of every structure it visits: in bounds, below the recorded EOF, pairwise disjoint, checksums/signatures/versions consistent, and tree/shapes/types/element bytes/attributes equal to the reference model. 32 format-level deviations present on the pinned tree are listed as known findings by exact finding class; any other class is a violation.",
+   technique="deterministic simulation histories + independent spec decoder of the closed file as oracle",
+   note="Trusted base: the independent decoder sim/specdec (cross-checked on 543 bundled reference-library files: the 451 that are not deliberately corrupt or multi-file members decode without findings), the reference model, Go toolchain. Sampling, not proof.",
+   ref="DESIGN.md section 4 C05"),
+ "C10": dict(level="exploration", engine="E1-history-simulator",
+   text="Seeded base files followed by 1-5 OpenForWrite sessions (restart: only file bytes survive, all writer memory lost) of 0-10 operations; after each session the logical dump must equal the model with exactly that session's successful operations; empty sessions must leave the file byte-identical (SHA-256).",
+   technique="deterministic simulation: multi-session open-modify-close histories vs model",
+   ref="DESIGN.md section 4 C10"),
+ "C12": dict(level="exploration", engine="E1-history-simulator",
+   text="Seeded variable-length datasets (strings and sequences, element lengths around collection boundaries and above 64 KiB, several datasets sharing collections) are written, closed and reopened; the library must report a variable-length class of the written base type, and an independent decoder resolves every element through the global heap (must equal the written bytes) and checks every GCOL collection.",
+   technique="deterministic simulation histories + independent decoder of global heap collections",
+   ref="DESIGN.md section 4 C12"),
+ "C13": dict(level="exploration", engine="E1-history-simulator",
+   text="Seeded Resize/Write/restart histories on resizable chunked datasets against an array model resized with the same calls (retain intersection, zero-fill, drop the rest); Resize within maxdims must succeed, beyond must fail.",
+   technique="deterministic simulation: seeded resize/write/restart histories vs array model",
+   ref="DESIGN.md section 4 C13"),
+ "C16": dict(level="exploration", engine="E1-history-simulator",
+   text="Seeded histories interleaving valid calls with calls built to fail at 30 validation and capacity points (incl. calls on closed handles and repeated Close); the model ignores every call that returned an error, so any trace a failed call leaves in the reopened file, any later misbehaviour and any panic is a violation.",
+   technique="deterministic simulation: histories with failing calls vs model that ignores failed calls",
+   ref="DESIGN.md section 4 C16"),
  "C01": dict(level="exploration", engine="E1-history-simulator",
    text="Seeded deterministic simulation of write/restart/read histories (all dataset types x ranks x layouts x superblock versions x data classes) against an executable reference model; every failing run is minimised and replayed twice in fresh processes before it is reported.",
    technique="deterministic simulation: seeded write/restart/read histories vs reference model over a simulated disk",
